@@ -137,6 +137,7 @@ def _run_checks(checks, tier, seed, env, scratch):
         env["RP2V_EVIDENCE_DIR"] = os.path.join(scratch, "evidence")
         env["RP2V_REPLAY_DIR"] = os.path.join(scratch, "replays")
         env["PYTHONDONTWRITEBYTECODE"] = "1"
+        env.setdefault("RP2V_FAST_FAIL", "1")
         env["VERIF_SEED"] = str(seed)
         start = time.time()
         proc = sh([os.path.join(VERIF, "check"), check, "--tier", tier], cwd=VERIF, env=env)
